@@ -22,8 +22,12 @@ Definition parse_print_b : bool :=
     POWER_SUFFIXES) UNITS) ALL_PREFIXES.
 
 (** 21 x 31 x 7 = 4557 evaluations of the model *)
-Lemma parse_print_check : parse_print_b = true.
-Proof. vm_compute. reflexivity. Qed.
+Lemma parse_print_check :
+  forallb (fun p => forallb (fun u => forallb (fun w =>
+    let s := print_unit p u w in
+    split_is s p u (power_text w) && isAtomicSIUnit s && isSIUnit s && negb (isCompoundSIUnit s))
+    POWER_SUFFIXES) UNITS) ALL_PREFIXES = true.
+Proof. vm_cast_no_check (@eq_refl bool true). Qed.
 
 (** PARSE-PRINT.  Bound: p ranges over the empty prefix and the 20 entries of PREFIXES, u over the 31
     entries of UNITS, w over the 7 power suffixes "", ^1, ^2, ^3, ^-1, ^-2, ^-3. *)
@@ -32,7 +36,7 @@ Theorem parse_print : forall p u w, In p ALL_PREFIXES -> In u UNITS -> In w POWE
   isAtomicSIUnit (print_unit p u w) = true /\ isSIUnit (print_unit p u w) = true /\
   isCompoundSIUnit (print_unit p u w) = false.
 Proof.
-  intros p u w Hp Hu Hw. pose proof parse_print_check as H. unfold parse_print_b in H.
+  intros p u w Hp Hu Hw. pose proof parse_print_check as H.
   rewrite forallb_forall in H. specialize (H _ Hp).
   rewrite forallb_forall in H. specialize (H _ Hu).
   rewrite forallb_forall in H. specialize (H _ Hw). cbv zeta in H.
